@@ -27,6 +27,14 @@ Theorem c17_templates_closed : Forall entry_closed legacy_table.
 Proof. exact templates_closed. Qed.
 Print Assumptions c17_templates_closed.
 
+(* Second table obligation: for every legacy function (sample call with atomic operands) and operator, the
+   migrated text parses to the expression an independent specification prescribes (new name, argument order,
+   constants, zero-based positions; proofs/LegacyProofs.v legacy_spec, 81 lines written from the function
+   references), up to parentheses.  A swapped placeholder or a wrong rename breaks it. *)
+Theorem c17_table_meets_spec : forallb spec_ok legacy_spec = true.
+Proof. exact table_meets_spec. Qed.
+Print Assumptions c17_table_meets_spec.
+
 (* Printing a precedence-stable, lexically sane Excellent3 tree and parsing the text gives the tree back. *)
 Theorem c17_print_parse : forall t, wf3b t = true -> lex_ok t = true -> parse3 (print3 t) = Some t.
 Proof. exact parse3_print3. Qed.
